@@ -1,6 +1,8 @@
 import YtkModel.Wire
 import YtkModel.PipelineData
 import YtkDriver.HeapScript
+import YtkDriver.TplFuncsOps
+import YtkDriver.OpsExtOps
 open Lean
 
 namespace Ytk.C13
@@ -174,6 +176,12 @@ def handle : Wire.Handler := fun op a => do
   | "heapScript" =>
     -- a script of heap-level operations on an explicit heap (YtkDriver/HeapScript.lean)
     HeapScript.run a
+  | "tplFuncs" =>
+    -- the template functions of pipeline/template_engine_funcs.go (YtkDriver/TplFuncsOps.lean)
+    TplFuncsOps.run a
+  | "opsExt" =>
+    -- ExecOp / TemplateFileOp / Html2DomOp / ValOrRef decoding (YtkDriver/OpsExtOps.lean)
+    OpsExtOps.run a
   | _ => throw s!"C13: unknown op {op}"
 
 end Ytk.C13
